@@ -362,6 +362,8 @@ class Check:
 
     def verdict(self, v, case, what=""):
         """v: 'ok' | 'known:<Dev>[,<Dev>...]' | anything else = violation."""
+        self.cov.setdefault("verdicts", {})
+        self.cov["verdicts"][str(v)] = self.cov["verdicts"].get(str(v), 0) + 1
         if v == "ok":
             return
         if isinstance(v, str) and v.startswith("known:"):
@@ -390,6 +392,8 @@ class Check:
         os.makedirs(os.path.join(ROOT, "evidence"), exist_ok=True)
         with open(os.path.join(ROOT, "evidence" if not WORK_SUFFIX else "work", self.pid + WORK_SUFFIX + ".json"), "w") as f:
             json.dump(ev, f, indent=1)
+        if self.cov.get("verdicts"):
+            print("verdicts: " + json.dumps(self.cov["verdicts"], sort_keys=True), flush=True)
         print("%s tier=%s evaluations=%d distinct=%d states=%d violations=%d known=%s wall=%.1fs" %
               (self.pid, self.tier, self.cov["evaluations"], self.cov["distinct_nontrivial"], self.cov["states"],
                len(self.violations), sorted(self.known_seen), time.time() - self.t0), flush=True)
